@@ -166,3 +166,75 @@ Theorem diagnostics_independent st1 st2 m cur :
   s_latest st1 = s_latest st2 -> s_tag st1 cur = s_tag st2 cur -> s_versions st1 = s_versions st2 ->
   diagnostic st1 m cur = diagnostic st2 m cur.
 Proof. intros H1 H2 H3. unfold diagnostic, compare_version. rewrite H1, H2, H3. reflexivity. Qed.
+
+(* ---------- the contract on a class of specs: PEP 440 ---------- *)
+(* pypi.rs decides the empty specifier set ("any version") before anything is parsed, so "Invalid iff a side does not
+   parse" holds for the non-empty specs only; the empty spec has a verdict of its own below *)
+Record matcher_facts_on (m : matcher) (dom : bytes -> bool) := mkMFon {
+  mo_wf : bytes -> bool;
+  mo_wfv : bytes -> bool;
+  mo_invalid : forall s l, dom s = true -> (m_compare m s l = Invalid <-> mo_wf s = false \/ mo_wfv l = false) }.
+
+Definition resolved_spec (k : key) (d : db) (cur : bytes) : option bytes :=
+  match get_dist_tag k cur d with Some v => Some v | None => if is_potential_dist_tag cur then None else Some cur end.
+
+Definition facts_on (ign : bool) (k : key) (d : db) (m : matcher) (dom : bytes -> bool) (F : matcher_facts_on m dom) (cur : bytes) : facts :=
+  mkFacts (get_latest_version ign k d) (get_dist_tag k cur d) (is_potential_dist_tag cur)
+          (mo_wf m dom F) (mo_wfv m dom F)
+          (fun r => m_exists m r (get_versions k d))
+          (fun r l => match m_compare m r l with Latest => true | _ => false end)
+          (fun r l => match m_compare m r l with Outdated => true | _ => false end).
+
+Theorem diagnostic_is_table_on ign k d m dom (F : matcher_facts_on m dom) cur :
+  (forall r, resolved_spec k d cur = Some r -> dom r = true) ->
+  verdict_of cur (diagnostic (storer_of ign k d) m cur) (table (facts_on ign k d m dom F cur) cur).
+Proof.
+  intros Hdom. unfold diagnostic, compare_version, storer_of, table, facts_on, resolved_spec in *.
+  cbn [s_latest s_tag s_versions f_latest f_tag_target f_known_tag f_wf f_wfv f_some_inside f_latest_inside f_anchor_below].
+  destruct (get_latest_version ign k d) as [l|]; [|reflexivity].
+  set (resolved := match get_dist_tag k cur d with Some v => Some v | None => if is_potential_dist_tag cur then None else Some cur end) in *.
+  destruct resolved as [r|]; [|reflexivity]. specialize (Hdom r eq_refl).
+  destruct (m_compare m r l) eqn:C.
+  - assert (Hw : mo_wf m dom F r = true /\ mo_wfv m dom F l = true).
+    { destruct (mo_wf m dom F r) eqn:W, (mo_wfv m dom F l) eqn:V; auto;
+        assert (m_compare m r l = Invalid) by (apply (mo_invalid m dom F _ _ Hdom); auto); congruence. }
+    destruct Hw as [-> ->]. cbn [negb orb]. destruct (m_exists m r (get_versions k d)); reflexivity.
+  - assert (Hw : mo_wf m dom F r = true /\ mo_wfv m dom F l = true).
+    { destruct (mo_wf m dom F r) eqn:W, (mo_wfv m dom F l) eqn:V; auto;
+        assert (m_compare m r l = Invalid) by (apply (mo_invalid m dom F _ _ Hdom); auto); congruence. }
+    destruct Hw as [-> ->]. cbn [negb orb]. destruct (m_exists m r (get_versions k d)); reflexivity.
+  - assert (Hw : mo_wf m dom F r = true /\ mo_wfv m dom F l = true).
+    { destruct (mo_wf m dom F r) eqn:W, (mo_wfv m dom F l) eqn:V; auto;
+        assert (m_compare m r l = Invalid) by (apply (mo_invalid m dom F _ _ Hdom); auto); congruence. }
+    destruct Hw as [-> ->]. cbn [negb orb]. destruct (m_exists m r (get_versions k d)); reflexivity.
+  - apply (mo_invalid m dom F _ _ Hdom) in C. destruct C as [-> | ->]; cbn [negb orb]; [reflexivity | rewrite orb_true_r; reflexivity].
+Qed.
+
+Section PypiFacts.
+  Variable specs_ok : bytes -> bool.
+  Variable ver_ok : bytes -> bool.
+  Variable contains : bytes -> bytes -> bool.
+  Variable ver_le : bytes -> bytes -> bool.
+  Definition pypi_matcher : matcher :=
+    mkMatcher (PypiMatcher.version_exists specs_ok ver_ok contains) (PypiMatcher.compare_to_latest specs_ok ver_ok contains ver_le).
+  Definition nonempty (s : bytes) : bool := negb (beq s []).
+  Definition pypi_facts : matcher_facts_on pypi_matcher nonempty.
+  Proof.
+    refine (mkMFon pypi_matcher nonempty specs_ok ver_ok _).
+    intros s l Hs. cbn [m_compare pypi_matcher]. rewrite pypi_compare_invalid.
+    assert (s <> []) as Hne by (intros ->; discriminate). split.
+    - intros [_ [H|H]]; [now right|now left].
+    - intros [H|H]; (split; [exact Hne|]); [now right|now left].
+  Defined.
+  (* the empty specifier set: nothing is shown as long as anything is cached for the package, whatever the latest is *)
+  Lemma pypi_empty_spec ign k d l :
+    get_latest_version ign k d = Some l -> resolved_spec k d [] = Some [] ->
+    diagnostic (storer_of ign k d) pypi_matcher [] =
+      match get_versions k d with [] => Some (SevError, s_version_ ++ s_not_found) | _ => None end.
+  Proof.
+    intros HL Hr. unfold diagnostic, compare_version, storer_of, resolved_spec in *. cbn [s_latest s_tag s_versions]. rewrite HL.
+    destruct (get_dist_tag k [] d) as [v|].
+    - injection Hr as ->. cbn. destruct (get_versions k d); reflexivity.
+    - destruct (is_potential_dist_tag []); [discriminate|]. cbn. destruct (get_versions k d); reflexivity.
+  Qed.
+End PypiFacts.
